@@ -486,6 +486,16 @@ func (t *sseClientTransport) sendResponseMessage(response interface{}) {
 		}
 	}
 
+	// Apply HTTP before-request functions.
+	if t.client != nil {
+		if err := t.client.applyHTTPBeforeRequest(ctx, httpReq); err != nil {
+			if t.logger != nil {
+				t.logger.Errorf("HTTP before-request failed for response: %v", err)
+			}
+			return
+		}
+	}
+
 	var resp *http.Response
 	resp, err = t.httpReqHandler.Handle(ctx, t.httpClient, httpReq) // Always use httpReqHandler consistently.
 
